@@ -325,3 +325,39 @@ def verify_normalize(pc, E):
                  returns=TStr, prop=['C07'])
     E.add_contract(c, key='clastic.route.normalize_path#verify')
     pc.add_functions(E, ['clastic.route.normalize_path#verify'])
+
+
+def verify_match_path(pc, E):
+    """BoundRoute.match_path itself (C05): never raises; None or a dict with exactly the converter names."""
+    from pyvc.state import RaiseSig
+    I = E.interp
+
+    def conv_call(I, ctx, conv, value):
+        k = ctx.nondet(3, 'converter')
+        if k == 1:
+            raise RaiseSig(I.make_exc(ctx, 'builtins.ValueError', [VStr('invalid literal')]), None)
+        if k == 2:
+            raise RaiseSig(I.make_exc(ctx, 'builtins.TypeError', [VStr('bad type')]), None)
+        return VObj(Z.func('CONVERTED', Z.Obj, Z.Obj, Z.Obj)(conv.z, box(value, ctx)))
+    E.opaque['Conv'].methods['__call__'] = conv_call
+
+    def regex_match(I, ctx, rx, s):
+        m = Z.func('RE_MATCH', Z.Obj, Z.Str, Z.Obj)(rx.z, s.z)
+        return VObj(m, 'Match')
+
+    def groupdict(I, ctx, m):
+        return ctx.alloc(HDict(dom=Z.func('GROUP_NAMES', Z.Obj, Z.SetSort(Z.Str))(m.z),
+                               arr=Z.func('GROUPS', Z.Obj, z3.ArraySort(Z.Str, Z.Obj))(m.z), kt=TStr, vt=TObj()))
+    E.opaque['Regex'].methods['match'] = regex_match
+    E.add_opaque(OpaqueClass('Match', methods={'groupdict': groupdict}, truthy=True))
+    c = Contract('clastic.route.BoundRoute.match_path',
+                 params={'self': TInst('clastic.route.BoundRoute',
+                                       {'regex': TObj('Regex', inv=lambda r: r != Z.NONE), 'converters': TDict(TStr, TConv)}),
+                         'path': TStr},
+                 loops={('(conv_name, conv)', 'self.converters.items()'): LoopSpec(
+                     inv=['keys(ret) == _done'], modifies={'ret': TDict(TStr, TObj())})},
+                 ensures=['result is None or keys(result) == keys(self.converters)'],
+                 returns=TOpt(TDict(TStr, TObj())), prop=['C05'],
+                 note='conversion errors (KeyError/TypeError/ValueError) mean no match; nothing escapes')
+    E.add_contract(c, key='clastic.route.BoundRoute.match_path#verify')
+    pc.add_functions(E, ['clastic.route.BoundRoute.match_path#verify'])
